@@ -39,7 +39,7 @@ import (
 )
 
 type TCPStep struct {
-	Op string `json:"op"`          // sendA sendB sendBoth hcA hcB closeA closeB
+	Op string `json:"op"`          // sendA sendB sendBoth hcA hcB closeA closeB sendhcA sendhcB (send and half-close at once)
 	N  int    `json:"n,omitempty"` // bytes (sendA/sendB; A's bytes in sendBoth)
 	M  int    `json:"m,omitempty"` // B's bytes in sendBoth
 }
@@ -56,6 +56,16 @@ type TCPCase struct {
 	FailWriteA int64     `json:"fail_write_a"` // relay end towards A: Write fails after k bytes
 	FailWriteB int64     `json:"fail_write_b"`
 	Steps      []TCPStep `json:"steps"`
+	// ErrKindA/B: kind of the error the injected faults of that relay end return (generic, timeout, deadline)
+	ErrKindA string `json:"err_kind_a,omitempty"`
+	ErrKindB string `json:"err_kind_b,omitempty"`
+	// EOFWithDataA/B: that relay end returns its last buffered bytes TOGETHER with io.EOF
+	// (io.Reader allows it; the project's QUIC stream conn does it)
+	EOFWithDataA bool `json:"eof_with_data_a,omitempty"`
+	EOFWithDataB bool `json:"eof_with_data_b,omitempty"`
+	// Pre: this many leading steps (sends and half-closes only) are performed BEFORE the relay
+	// starts, so that it finds data and end-of-stream already buffered (data+EOF in one Read)
+	Pre int `json:"pre,omitempty"`
 }
 
 // ---------------------------------------------------------------------------
@@ -170,6 +180,10 @@ func runTCP(c *TCPCase) (fail *failure, class string, nt bool, sig string) {
 	rB.FailReadAfter.Store(c.FailReadB)
 	rA.FailWriteAfter.Store(c.FailWriteA)
 	rB.FailWriteAfter.Store(c.FailWriteB)
+	rA.FailErr = errOfKind(c.ErrKindA, nil)
+	rB.FailErr = errOfKind(c.ErrKindB, nil)
+	rA.EOFWithData.Store(c.EOFWithDataA)
+	rB.EOFWithData.Store(c.EOFWithDataB)
 	app := [2]*vkit.BufConn{appA, appB}
 	noCW := [2]bool{c.NoCWA, c.NoCWB}
 	seed := [2]uint64{c.SeedA, c.SeedB}
@@ -180,13 +194,20 @@ func runTCP(c *TCPCase) (fail *failure, class string, nt bool, sig string) {
 	returned := false
 	completions := 0
 	var cbSent, cbRecv int64
-	go func() {
-		r := iocopy.Bidirectional(rA, rB, &iocopy.Options{LogPrefix: "c12", OnComplete: func(s, r int64, err error) {
-			h.do(func() { completions++; cbSent, cbRecv = s, r })
-		}})
-		h.do(func() { res = r; returned = true })
-	}()
+	started := false
+	start := func() {
+		started = true
+		go func() {
+			r := iocopy.Bidirectional(rA, rB, &iocopy.Options{LogPrefix: "c12", OnComplete: func(s, r int64, err error) {
+				h.do(func() { completions++; cbSent, cbRecv = s, r })
+			}})
+			h.do(func() { res = r; returned = true })
+		}()
+	}
 	defer func() {
+		if !started {
+			start()
+		}
 		// nothing of this case may survive it: closing all four ends makes every relay
 		// goroutine and every collector fall out of its Read/Write.
 		for _, x := range []*vkit.BufConn{appA, appB, rA, rB} {
@@ -263,17 +284,64 @@ func runTCP(c *TCPCase) (fail *failure, class string, nt bool, sig string) {
 		return earlyReturn()
 	}
 
-	for _, st := range c.Steps {
+	// pending: waits owed for steps that were performed before the relay started
+	var pendSettle [2]bool
+	var pendEOS [2]bool
+	flushPending := func() *failure {
+		for d := 0; d < 2; d++ {
+			if pendSettle[d] {
+				pendSettle[d] = false
+				if f := settle(d, m.d[d].hard == m.d[d].exp); f != nil {
+					return f
+				}
+			}
+		}
+		for x := 0; x < 2; x++ {
+			if pendEOS[x] {
+				pendEOS[x] = false
+				if f := endOfStream(x); f != nil {
+					return f
+				}
+			}
+		}
+		return nil
+	}
+	preOK := func(op string) bool {
+		switch op {
+		case "sendA", "sendB", "sendBoth", "hcA", "hcB", "sendhcA", "sendhcB":
+			return true
+		}
+		return false
+	}
+	preSteps := 0
+	for i, st := range c.Steps {
+		if !started && (i >= c.Pre || !preOK(st.Op)) {
+			start()
+			if f := flushPending(); f != nil {
+				return f, "", false, ""
+			}
+		}
+		if !started {
+			preSteps++
+		}
 		if stopped {
 			break
 		}
-		if f := earlyReturn(); f != nil {
-			return f, "", false, ""
+		if started {
+			if f := earlyReturn(); f != nil {
+				return f, "", false, ""
+			}
 		}
-		switch st.Op {
+		op := st.Op
+		andHalfClose := false
+		if op == "sendhcA" || op == "sendhcB" {
+			andHalfClose = true
+			op = "send" + op[len(op)-1:]
+		}
+		switch op {
 		case "sendA", "sendB":
 			x := 0
-			if st.Op == "sendB" {
+			if op == "sendB" {
 				x = 1
 			}
 			if m.hc[x] || m.closed[x] || st.N <= 0 {
@@ -286,6 +354,35 @@ func runTCP(c *TCPCase) (fail *failure, class string, nt bool, sig string) {
 				m.d[x].hard = m.d[x].exp
 			}
 			write(x, from, st.N)
+			if andHalfClose {
+				// data and end-of-stream reach the relay's end together
+				app[x].CloseWrite()
+				m.hc[x] = true
+				eos := false
+				if !m.d[x].ended {
+					m.d[x].ended = true
+					m.d[x].endKind = "eof"
+					eos = true
+				}
+				if !started {
+					pendSettle[x] = true
+					pendEOS[x] = pendEOS[x] || eos
+					continue
+				}
+				if f := settle(x, wasClean); f != nil {
+					return f, "", false, ""
+				}
+				if eos {
+					if f := endOfStream(x); f != nil {
+						return f, "", false, ""
+					}
+				}
+				continue
+			}
+			if !started {
+				pendSettle[x] = true
+				continue
+			}
 			if f := settle(x, wasClean); f != nil {
 				return f, "", false, ""
 			}
@@ -313,6 +410,10 @@ func runTCP(c *TCPCase) (fail *failure, class string, nt bool, sig string) {
 			write(0, fromA, st.N)
 			write(1, fromB, st.M)
 			concurrent = true
+			if !started {
+				pendSettle[0], pendSettle[1] = true, true
+				continue
+			}
 			if f := settle(0, wasClean && !fb); f != nil {
 				return f, "", false, ""
 			}
@@ -321,10 +422,10 @@ func runTCP(c *TCPCase) (fail *failure, class string, nt bool, sig string) {
 			}
 		case "hcA", "hcB", "closeA", "closeB":
 			x := 0
-			if st.Op == "hcB" || st.Op == "closeB" {
+			if op == "hcB" || op == "closeB" {
 				x = 1
 			}
-			hard := st.Op == "closeA" || st.Op == "closeB"
+			hard := op == "closeA" || op == "closeB"
 			if m.closed[x] || (!hard && m.hc[x]) {
 				continue
 			}
@@ -338,13 +439,23 @@ func runTCP(c *TCPCase) (fail *failure, class string, nt bool, sig string) {
 			if !m.d[x].ended {
 				m.d[x].ended = true
 				m.d[x].endKind = "eof"
-				if !m.d[1-x].ended && m.clean && !hard {
+				if !m.d[1-x].ended && m.clean && !hard && started {
 					halfClosedDir[x] = true
+				}
+				if !started {
+					pendEOS[x] = true
+					continue
 				}
 				if f := endOfStream(x); f != nil {
 					return f, "", false, ""
 				}
 			}
+		}
+	}
+	if !started {
+		start()
+		if f := flushPending(); f != nil {
+			return f, "", false, ""
 		}
 	}
 	// finish: bring every direction that is still open to its end (source half-closes)
@@ -413,7 +524,11 @@ func runTCP(c *TCPCase) (fail *failure, class string, nt bool, sig string) {
 	if m.clean && (errs[0] != nil || errs[1] != nil) {
 		return failf("C12/tcp/error-reported-on-clean-run", "no transport error was injected, Result has SendError=%v ReceiveError=%v", errs[0], errs[1]), "", false, ""
 	}
-	if m.firstFault >= 0 && errs[m.firstFault] == nil {
+	// (a read fault placed exactly where the source's stream ends is ambiguous: an end that
+	// returns its last bytes together with io.EOF never performs the failing Read)
+	ambiguous := m.firstFault >= 0 && m.firstKind == "read-fault" && m.d[m.firstFault].fr == int64(m.d[m.firstFault].sent) &&
+		(m.hc[m.firstFault] || m.closed[m.firstFault])
+	if m.firstFault >= 0 && errs[m.firstFault] == nil && !ambiguous {
 		return failf("C12/tcp/fault-not-reported/"+m.firstKind, "direction %s failed (%s) but its Result error is nil", dirName(m.firstFault), m.firstKind), "", false, ""
 	}
 	if f := leakAfter(baseline); f != nil {
@@ -450,6 +565,22 @@ func runTCP(c *TCPCase) (fail *failure, class string, nt bool, sig string) {
 	}
 	if concurrent {
 		vkit.Class("tcp-feat:both-directions-at-once")
+	}
+	if preSteps > 0 {
+		vkit.Class("tcp-feat:data/EOF-buffered-before-relay-starts")
+	}
+	if c.EOFWithDataA || c.EOFWithDataB {
+		vkit.Class("tcp-feat:relay-end-returns-data-with-EOF")
+	}
+	if !m.clean {
+		k := c.ErrKindA
+		if (m.firstFault == 0) == (m.firstKind == "write-fault") { // A->B write / B->A read happen on B's end
+			k = c.ErrKindB
+		}
+		if m.firstKind == "write-to-closed" || k == "" {
+			k = "generic"
+		}
+		vkit.Class("tcp-feat:first-error-kind=" + k)
 	}
 	if !m.clean && (m.d[0].hard > 0 || m.d[1].hard > 0) {
 		vkit.Class("tcp-feat:fault-after-some-bytes")
@@ -508,10 +639,10 @@ func genTCP(t *rapid.T) *TCPCase {
 		var ops []string
 		canA, canB := !hc[0] && !closed[0], !hc[1] && !closed[1]
 		if canA {
-			ops = append(ops, "sendA", "sendA", "sendA", "hcA")
+			ops = append(ops, "sendA", "sendA", "sendA", "hcA", "sendhcA")
 		}
 		if canB {
-			ops = append(ops, "sendB", "sendB", "sendB", "hcB")
+			ops = append(ops, "sendB", "sendB", "sendB", "hcB", "sendhcB")
 		}
 		if canA && canB {
 			ops = append(ops, "sendBoth", "sendBoth")
@@ -536,9 +667,9 @@ func genTCP(t *rapid.T) *TCPCase {
 			}
 		}
 		switch st.Op {
-		case "sendA", "sendB":
+		case "sendA", "sendB", "sendhcA", "sendhcB":
 			x := 0
-			if st.Op == "sendB" {
+			if st.Op == "sendB" || st.Op == "sendhcB" {
 				x = 1
 			}
 			st.N = genSize(t, "n")
@@ -546,6 +677,9 @@ func genTCP(t *rapid.T) *TCPCase {
 				st.N += 1024
 			}
 			sent[x] += st.N
+			if st.Op == "sendhcA" || st.Op == "sendhcB" {
+				hc[x] = true
+			}
 		case "sendBoth":
 			st.N, st.M = genSize(t, "n"), genSize(t, "m")
 			sent[0] += st.N
@@ -560,6 +694,14 @@ func genTCP(t *rapid.T) *TCPCase {
 			closed[1] = true
 		}
 		c.Steps = append(c.Steps, st)
+	}
+	// how the relay's ends report end-of-stream and errors
+	c.EOFWithDataA = rapid.IntRange(0, 2).Draw(t, "eofWithDataA") == 0
+	c.EOFWithDataB = rapid.IntRange(0, 1).Draw(t, "eofWithDataB") == 0 // the tunnel end (QUIC streams do this)
+	c.ErrKindA = rapid.SampledFrom(errKinds).Draw(t, "errKindA")
+	c.ErrKindB = rapid.SampledFrom(errKinds).Draw(t, "errKindB")
+	if rapid.IntRange(0, 2).Draw(t, "preStart") == 0 {
+		c.Pre = rapid.IntRange(1, len(c.Steps)).Draw(t, "pre")
 	}
 	// transport faults at drawn byte positions
 	nf := 0
@@ -629,6 +771,25 @@ func TestTCPScripted(t *testing.T) {
 			c2.Steps = []TCPStep{{Op: "sendBoth", N: 100000, M: 70000}, {Op: "hcB"}, {Op: "sendA", N: 5000}, {Op: "closeA"}}
 			check(t, Case{TCP: &c2})
 		}
+	}
+	// data and end-of-stream found together by the relay (one Read returns n>0 and io.EOF)
+	for _, cap := range []int{0, 1, 100} {
+		for _, n := range []int{1, 300, 40000} {
+			c := base()
+			c.EOFWithDataA, c.EOFWithDataB, c.ReadCapA, c.ReadCapB, c.Pre = true, true, cap, cap, 2
+			c.Steps = []TCPStep{{Op: "sendhcB", N: n}, {Op: "sendhcA", N: n + 7}}
+			check(t, Case{TCP: &c})
+			c2 := base()
+			c2.EOFWithDataB, c2.NoCWB, c2.ReadCapB, c2.Pre = true, true, cap, 1
+			c2.Steps = []TCPStep{{Op: "sendB", N: n}, {Op: "sendA", N: 2000}, {Op: "sendhcB", N: n}, {Op: "sendhcA", N: 9}}
+			check(t, Case{TCP: &c2})
+		}
+	}
+	for _, kind := range errKinds {
+		c := base()
+		c.ErrKindA, c.ErrKindB, c.FailReadB, c.FailWriteB = kind, kind, 1200, 900
+		c.Steps = []TCPStep{{Op: "sendBoth", N: 800, M: 1100}, {Op: "sendB", N: 200}, {Op: "sendA", N: 200}}
+		check(t, Case{TCP: &c})
 	}
 	for _, k := range []int64{0, 1, 4999, 5000} {
 		c := base()
